@@ -916,3 +916,8 @@ def run(ctx: Ctx, rep: Report, tier: str) -> None:
     rep.absorb(sub, "R15.11")
     r15_4(ctx, rep)
     r15_5(ctx, rep)
+
+
+# what the later rounds (seeding rounds 2-5, refactor twins, defect hunt) added to what the check decides
+LATER_ROUNDS = "a repeated heading remark is reported as dropped (known finding K6), blocks without own number are ordered by their first member's, ties are not decided by text alone, the source and destination steps of the comparator agree"
+EXPLANATION = EXPLANATION.replace(" Does not decide", " Later rounds added: " + LATER_ROUNDS + ". Does not decide", 1) if " Does not decide" in EXPLANATION else EXPLANATION + " Later rounds added: " + LATER_ROUNDS + "."
